@@ -677,8 +677,30 @@ class Gen(object):
             e = ['bin', 'cat', e, r]
         return e
 
+    def num_variant(self):
+        """a string literal that is numeric but not written like the attribute values"""
+        base = self.rng.choice(self.num_pool) if self.num_pool and self.rng.random() < 0.7 else str(self.rng.randint(0, 6))
+        f = self.rng.choice(['%s.0', '0%s', ' %s', '%s ', '%s', '%s.00', '+%s'])
+        if '.' in base and f in ('%s.0', '%s.00'):
+            f = '%s0'
+        return ['str', f % base]
+
     def comparison(self, depth):
         r = self.rng.random()
+        if r < 0.08:
+            # numeric comparison between string-typed operands (attribute vs attribute / numeric string literal)
+            o = self.rng.choice(CMP)
+            a = self.rng.choice([['attr', 'n'], ['attr', 'n'], ['nspace', ['attr', 'n']]])
+            b = self.rng.choice([self.num_variant(), self.num_variant(), ['attr', 'n'], ['concat', ['attr', 'n'], ['str', '']]])
+            return ['bin', o, a, b] if self.rng.random() < 0.7 else ['bin', o, b, a]
+        if r < 0.16:
+            # text functions against strings that occur in the document
+            t = self.rng.choice(self.str_pool) if self.str_pool else 'hi'
+            if '"' in t or "'" in t:
+                t = 'hi'
+            f = self.rng.choice([['text'], ['nspace'], ['nspace', ['text']], ['nspace', ['attr', 'k']], ['concat', ['attr', 'zz'], ['text']],
+                                 ['concat', ['attr', 'k'], ['attr', 'id']], ['concat', ['text'], ['attr', 'k']]])
+            return ['bin', self.rng.choice(['eq', 'eq', 'ne']), f, ['str', t if self.rng.random() < 0.6 else t.strip()]]
         if r < 0.45:
             o = self.rng.choice(CMP)
             return ['bin', o, self.num_expr(depth), self.num_expr(depth)]
@@ -707,8 +729,12 @@ class Gen(object):
             return ['num', str(self.rng.randint(1, 3))]
         if r < 0.17:
             return ['last']
-        if r < 0.22:
+        if r < 0.2:
             return self.num_expr(min(depth, 1))          # a computed position
+        if r < 0.24:
+            return self.rng.choice([['num', '1.5'], ['num', '2.5'], ['bin', 'div', ['last'], ['num', '2']],
+                                    ['bin', 'div', ['attr', 'n'], ['num', '2']], ['bin', 'add', ['pos'], ['num', '0.5']],
+                                    ['bin', 'mul', ['pos'], ['num', '1.0']], ['bin', 'sub', ['last'], ['num', '0.5']]])
         if r < 0.27:
             return self.rare(depth)
         return self.boolean(depth)
